@@ -1,13 +1,16 @@
 /-
-C06 — every schedule of slot-disjoint goroutines is serialisable, provided `addNewSnapshot` and
-`updateSnapshot` take the write lock; and the concrete lost update when `addNewSnapshot` does not
-(the pinned tree, finding D4).
+C06 — every schedule of slot-disjoint goroutines is serialisable, provided `getPrevSnapshot`,
+`addNewSnapshot` and `updateSnapshot` all take the mutex; and a concrete broken schedule for each
+of the three locks when it is missing (`addNewSnapshot` without the lock is the pinned tree,
+finding D4).
 
 Statements only; the model is `GoSnaps/Conc.lean` (executable, `runSchedule`), the invariant and
 its preservation are in `GoSnaps/Lemmas/Conc.lean`.  All theorems are for ANY number of threads,
 ANY programs and EVERY schedule (`sch : List Nat`, blocked/finished/non-existent choices stutter).
 
 The three facts about the source are the fields of `L : Locks` (`L.add`, `L.upd`, `L.read`).
+Slots and values are arbitrary types with decidable equality (`κ`, `ν`); examples use `Nat`.
+An update is FOUR steps: READ, `upd1` (lock + copy), `upd2a` (truncate), `upd2b` (write + unlock).
 -/
 import GoSnaps.Lemmas.Conc
 
@@ -15,17 +18,21 @@ namespace GoSnaps.Conc.C06
 
 open GoSnaps GoSnaps.Conc
 
+variable {κ ν : Type} [DecidableEq κ] [DecidableEq ν]
+
 /-! ## Running example (3 threads, 7 calls, an interleaved schedule with blocked choices) -/
 
-def exInit : File := [(10, 1), (20, 2), (30, 3)]
+def exInit : File Nat Nat := [(10, 1), (20, 2), (30, 3)]
 
-def exProgs : List (List Call) :=
+def exProgs : List (List (Call Nat Nat)) :=
   [ [⟨10, 1, false, false⟩, ⟨11, 5, true, false⟩, ⟨11, 6, false, true⟩],   -- pass, add, update
     [⟨20, 7, false, true⟩, ⟨21, 8, false, true⟩],                          -- update, fail
     [⟨31, 9, true, true⟩, ⟨30, 4, false, false⟩] ]                         -- add, fail
 
-/-- thread 1 takes W (step 4); threads 0 and 2 are then scheduled while blocked (steps 5, 6) -/
-def exSched : List Nat := [0, 0, 1, 1, 0, 2, 1, 2, 0, 2, 0, 1, 2, 0, 0, 1, 2]
+/-- thread 1 takes W (step 4); thread 0 (ADD) and thread 2 (READ) are scheduled while blocked
+(steps 5, 6); thread 1 truncates (step 7); thread 2 is scheduled again, still blocked, while the
+file is EMPTY (step 8); thread 1 writes back and unlocks (step 9); ... -/
+def exSched : List Nat := [0, 0, 1, 1, 0, 2, 1, 2, 1, 2, 0, 2, 0, 1, 2, 0, 0, 0, 1, 2]
 
 def allL : Locks := { add := true, upd := true, read := true }
 
@@ -36,14 +43,17 @@ disjoint slots, then after ANY schedule, every thread that has finished has prod
 outcomes of running its program alone against the initial file. -/
 theorem serialisable_outcomes (L : Locks)
     (hL : L.add = true ∧ L.upd = true ∧ L.read = true)
-    (f₀ : File) (progs : List (List Call)) (hdisj : Disj progs) (sch : List Nat)
-    (i : Nat) (t : TState) (hfin : (run L (init f₀ progs) sch).ts[i]? = some t)
+    (f₀ : File κ ν) (progs : List (List (Call κ ν))) (hdisj : Disj progs) (sch : List Nat)
+    (i : Nat) (t : ATState κ ν) (hfin : (run L (init f₀ progs) sch).ts[i]? = some t)
     (hdone : t.todo = []) :
     ∃ p, progs[i]? = some p ∧ t.outs = serialOuts (lookup f₀) p :=
-  (run_inv hL.1 hL.2.1 hdisj _ (init_inv f₀ progs) sch).outs_of_done hfin hdone
+  (run_inv hL.1 hL.2.1 hL.2.2 hdisj _ (init_inv f₀ progs) sch).outs_of_done hfin hdone
 
 example : Disj exProgs := by decide
 example : AllDone (run allL (init exInit exProgs) exSched) := by decide
+/-- after step 8 the real file is empty, W is held, and a blocked reader has been scheduled -/
+example : (run allL (init exInit exProgs) (exSched.take 8)).file = [] ∧
+    (run allL (init exInit exProgs) (exSched.take 8)).holder = some 1 := by decide
 example : (runSchedule true true true exInit exProgs exSched).2 =
     [[.passed, .added, .updated], [.updated, .failed], [.added, .failed]] := by decide
 example : exProgs.map (serialOuts (lookup exInit)) =
@@ -61,19 +71,19 @@ hypotheses, after any schedule which lets ALL threads finish (see `Conc.FinalOK`
 * `nodup`   : if the initial file has no duplicate slot, neither has the final file. -/
 theorem final_file_correct (L : Locks)
     (hL : L.add = true ∧ L.upd = true ∧ L.read = true)
-    (f₀ : File) (progs : List (List Call)) (hdisj : Disj progs) (sch : List Nat)
+    (f₀ : File κ ν) (progs : List (List (Call κ ν))) (hdisj : Disj progs) (sch : List Nat)
     (hdone : AllDone (run L (init f₀ progs) sch)) :
     FinalOK f₀ progs (run L (init f₀ progs) sch).file :=
-  (run_inv hL.1 hL.2.1 hdisj _ (init_inv f₀ progs) sch).finalOK
+  (run_inv hL.1 hL.2.1 hL.2.2 hdisj _ (init_inv f₀ progs) sch).finalOK
     (by rw [run_length]; simp [init]) hdone
 
 /-- ... and the write lock is free again. -/
 theorem lock_released (L : Locks)
     (hL : L.add = true ∧ L.upd = true ∧ L.read = true)
-    (f₀ : File) (progs : List (List Call)) (hdisj : Disj progs) (sch : List Nat)
+    (f₀ : File κ ν) (progs : List (List (Call κ ν))) (hdisj : Disj progs) (sch : List Nat)
     (hdone : AllDone (run L (init f₀ progs) sch)) :
     (run L (init f₀ progs) sch).holder = none :=
-  (run_inv hL.1 hL.2.1 hdisj _ (init_inv f₀ progs) sch).holder_none hdone
+  (run_inv hL.1 hL.2.1 hL.2.2 hdisj _ (init_inv f₀ progs) sch).holder_none hdone
 
 example : (runSchedule true true true exInit exProgs exSched).1 =
     [(10, 1), (20, 7), (30, 3), (11, 6), (31, 9)] := by decide
@@ -82,54 +92,44 @@ example : FinalOK exInit exProgs (run allL (init exInit exProgs) exSched).file :
   final_file_correct allL ⟨rfl, rfl, rfl⟩ exInit exProgs (by decide) exSched (by decide)
 
 /-- The same two conclusions in terms of the harness entry point `runSchedule`. -/
-theorem runSchedule_serialisable (f₀ : File) (progs : List (List Call)) (hdisj : Disj progs)
+theorem runSchedule_serialisable (f₀ : File κ ν) (progs : List (List (Call κ ν))) (hdisj : Disj progs)
     (sch : List Nat)
     (hdone : AllDone (run allL (init f₀ progs) sch)) :
     (runSchedule true true true f₀ progs sch).2 = progs.map (serialOuts (lookup f₀)) ∧
     FinalOK f₀ progs (runSchedule true true true f₀ progs sch).1 :=
-  ⟨(run_inv rfl rfl hdisj _ (init_inv f₀ progs) sch).all_outs
+  ⟨(run_inv rfl rfl rfl hdisj _ (init_inv f₀ progs) sch).all_outs
       (by rw [run_length]; simp [init]) hdone,
     final_file_correct allL ⟨rfl, rfl, rfl⟩ f₀ progs hdisj sch hdone⟩
-
-/-- Remark (strongest version at this granularity): the READ lock is not used by the proofs.
-`upd2` truncates and rewrites in ONE step, so a reader never sees the truncated file; a model
-that splits `upd2` would need `L.read`.  The hypotheses of 1 and 2 keep all three facts. -/
-theorem serialisable_without_read_lock (L : Locks) (hL : L.add = true ∧ L.upd = true)
-    (f₀ : File) (progs : List (List Call)) (hdisj : Disj progs) (sch : List Nat) :
-    (∀ (i : Nat) (t : TState), (run L (init f₀ progs) sch).ts[i]? = some t → t.todo = [] →
-      ∃ p, progs[i]? = some p ∧ t.outs = serialOuts (lookup f₀) p) ∧
-    (AllDone (run L (init f₀ progs) sch) → FinalOK f₀ progs (run L (init f₀ progs) sch).file) :=
-  ⟨fun _ _ hfin hdone =>
-      (run_inv hL.1 hL.2 hdisj _ (init_inv f₀ progs) sch).outs_of_done hfin hdone,
-    fun hdone => (run_inv hL.1 hL.2 hdisj _ (init_inv f₀ progs) sch).finalOK
-      (by rw [run_length]; simp [init]) hdone⟩
 
 /-! ## 3. `addNewSnapshot` without the lock: the lost update (pinned tree, D4) -/
 
 /-- the pinned tree: READ and UPDATE locked, ADD not -/
 def d4Locks : Locks := { add := false, upd := true, read := true }
-def d4Init : File := [(1, 10)]
+def d4Init : File Nat Nat := [(1, 10)]
 /-- thread 0 = A creates slot 0; thread 1 = B updates slot 1 -/
-def d4Progs : List (List Call) := [[⟨0, 5, true, false⟩], [⟨1, 11, false, true⟩]]
-/-- A reads, B reads, B `upd1` (takes W, copies the file), A ADDs, B `upd2` (writes the copy) -/
-def d4Sched : List Nat := [0, 1, 1, 0, 1]
+def d4Progs : List (List (Call Nat Nat)) := [[⟨0, 5, true, false⟩], [⟨1, 11, false, true⟩]]
+/-- A reads, B reads, B `upd1` (takes W, copies the file), A ADDs, B `upd2a` (truncates),
+B `upd2b` (writes the copy) -/
+def d4Sched : List Nat := [0, 1, 1, 0, 1, 1]
 
 /-- The window, step by step: B holds W with a copy of the file; A's unlocked ADD lands in the
-file and A reports `added`; B's write-back erases it. -/
+file and A reports `added`; B's truncate + write-back erases it. -/
 theorem lost_update_window :
     let σ3 := run d4Locks (init d4Init d4Progs) (d4Sched.take 3)
     let σ4 := run d4Locks (init d4Init d4Progs) (d4Sched.take 4)
-    let σ5 := run d4Locks (init d4Init d4Progs) d4Sched
+    let σ5 := run d4Locks (init d4Init d4Progs) (d4Sched.take 5)
+    let σ6 := run d4Locks (init d4Init d4Progs) d4Sched
     (σ3.holder = some 1 ∧ σ3.ts[1]?.map (·.pc) = some (.inUpd [(1, 10)])) ∧
     (σ4.holder = some 1 ∧ σ4.file = [(1, 10), (0, 5)] ∧ σ4.ts[0]?.map (·.outs) = some [.added]) ∧
-    (σ5.holder = none ∧ σ5.file = [(1, 11)]) := by decide
+    (σ5.holder = some 1 ∧ σ5.file = [] ∧ σ5.ts[1]?.map (·.pc) = some (.inWrite [(1, 10)])) ∧
+    (σ6.holder = none ∧ σ6.file = [(1, 11)]) := by decide
 
 /-- **Lost update.**  With `addLocked = false` (READ and UPDATE locked) conclusion 2 fails: there
 are two slot-disjoint threads and a schedule after which both have finished, thread 0 was told
 `added` (and a serial run leaves `some 5` in its slot), but the final file has no entry for its
 slot. -/
 theorem lost_update_exists :
-    ∃ (f₀ : File) (progs : List (List Call)) (sch : List Nat),
+    ∃ (f₀ : File Nat Nat) (progs : List (List (Call Nat Nat))) (sch : List Nat),
       progs.length = 2 ∧ Disj progs ∧ (f₀.map Prod.fst).Nodup ∧
       AllDone (run { add := false, upd := true, read := true } (init f₀ progs) sch) ∧
       runSchedule false true true f₀ progs sch = ([(1, 11)], [[.added], [.updated]]) ∧
@@ -145,16 +145,17 @@ theorem lost_update_exists :
 /-! ## 4. `updateSnapshot` without the lock: overwritten by a stale copy -/
 
 def u4Locks : Locks := { add := true, upd := false, read := true }
-def u4Init : File := [(0, 1), (1, 1)]
-def u4Progs : List (List Call) := [[⟨0, 2, false, true⟩], [⟨1, 2, false, true⟩]]
-/-- both read, both copy the file, thread 0 writes its copy back, thread 1 writes ITS copy back -/
-def u4Sched : List Nat := [0, 1, 0, 1, 0, 1]
+def u4Init : File Nat Nat := [(0, 1), (1, 1)]
+def u4Progs : List (List (Call Nat Nat)) := [[⟨0, 2, false, true⟩], [⟨1, 2, false, true⟩]]
+/-- both read, both copy the file, thread 0 truncates and writes its copy back, thread 1
+truncates and writes ITS copy back -/
+def u4Sched : List Nat := [0, 1, 0, 1, 0, 0, 1, 1]
 
 /-- **Unlocked update.**  With `updLocked = false` (READ and ADD locked) two updates of
 DIFFERENT slots interfere: both report `updated`, but the second write-back restores the old
 value of the first thread's slot. -/
 theorem unlocked_update_breaks :
-    ∃ (f₀ : File) (progs : List (List Call)) (sch : List Nat),
+    ∃ (f₀ : File Nat Nat) (progs : List (List (Call Nat Nat))) (sch : List Nat),
       progs.length = 2 ∧ Disj progs ∧ (f₀.map Prod.fst).Nodup ∧
       AllDone (run { add := true, upd := false, read := true } (init f₀ progs) sch) ∧
       runSchedule true false true f₀ progs sch = ([(0, 1), (1, 2)], [[.updated], [.updated]]) ∧
@@ -168,9 +169,47 @@ theorem unlocked_update_breaks :
       (by decide)⟩
 
 /-- the same two programs and schedule are fine when the update takes the lock
-(thread 1's `upd1` is blocked until thread 0 has written back, so it needs one more turn) -/
+(thread 1's `upd1` is blocked until thread 0 has written back, so it needs more turns) -/
 example : runSchedule true true true u4Init u4Progs (u4Sched ++ [1]) =
     ([(0, 2), (1, 2)], [[.updated], [.updated]]) := by decide
+
+/-! ## 4b. `getPrevSnapshot` without the lock: a read between truncate and write -/
+
+def r4Locks : Locks := { add := true, upd := true, read := false }
+def r4Init : File Nat Nat := [(0, 1), (1, 1)]
+/-- thread 0 updates slot 0; thread 1 re-checks the recorded value of slot 1 (serially: `passed`) -/
+def r4Progs : List (List (Call Nat Nat)) := [[⟨0, 2, false, true⟩], [⟨1, 1, true, false⟩]]
+/-- thread 0: READ, `upd1`, `upd2a` (file is now empty); thread 1: unlocked READ sees "not found";
+thread 0: `upd2b` (writes back, unlocks); thread 1: ADD (locked, now enabled) -/
+def r4Sched : List Nat := [0, 0, 0, 1, 0, 1]
+
+/-- the window: when thread 1 reads (step 4) the file is truncated and W is held by thread 0 -/
+theorem unlocked_read_window :
+    let σ3 := run r4Locks (init r4Init r4Progs) (r4Sched.take 3)
+    let σ4 := run r4Locks (init r4Init r4Progs) (r4Sched.take 4)
+    (σ3.holder = some 0 ∧ σ3.file = [] ∧ σ3.ts[0]?.map (·.pc) = some (.inWrite [(0, 1), (1, 1)])) ∧
+    (σ4.holder = some 0 ∧ σ4.ts[1]?.map (·.pc) = some .wantAdd) := by decide
+
+/-- **Unlocked read.**  With `readLocked = false` (ADD and UPDATE locked) both conclusions fail:
+a reader that runs between `Truncate(0)` and `Write` sees "not found" for a slot that exists and
+ADDs it again.  Its outcome is `added` where the serial run says `passed`, and the final file
+holds slot 1 TWICE although the initial file had no duplicate. -/
+theorem unlocked_read_breaks :
+    ∃ (f₀ : File Nat Nat) (progs : List (List (Call Nat Nat))) (sch : List Nat),
+      progs.length = 2 ∧ Disj progs ∧ (f₀.map Prod.fst).Nodup ∧
+      AllDone (run { add := true, upd := true, read := false } (init f₀ progs) sch) ∧
+      runSchedule true true false f₀ progs sch =
+        ([(0, 2), (1, 1), (1, 1)], [[.updated], [.added]]) ∧
+      progs.map (serialOuts (lookup f₀)) = [[.updated], [.passed]] ∧
+      ¬ ((runSchedule true true false f₀ progs sch).1.map Prod.fst).Nodup ∧
+      ¬ FinalOK f₀ progs (runSchedule true true false f₀ progs sch).1 :=
+  ⟨r4Init, r4Progs, r4Sched, by decide, by decide, by decide, by decide, by decide, by decide,
+    by decide, fun h => absurd (h.nodup (by decide)) (by decide)⟩
+
+/-- the same programs and schedule with the read lock: thread 1's READ is blocked at step 4,
+happens at step 6 instead and sees the value; one more turn is not even needed -/
+example : runSchedule true true true r4Init r4Progs r4Sched =
+    ([(0, 2), (1, 1)], [[.updated], [.passed]]) := by decide
 
 /-! ## 5. Tie to the extracted facts -/
 
@@ -192,8 +231,8 @@ theorem allLocked_iff : allLocked = true ↔
 locked (`allLocked = true`, checked by `decide` once the source is repaired), then conclusions 1
 and 2 hold for the extracted lock discipline `pinnedLocks`. -/
 theorem serialisable_of_allLocked (h : allLocked = true)
-    (f₀ : File) (progs : List (List Call)) (hdisj : Disj progs) (sch : List Nat) :
-    (∀ (i : Nat) (t : TState), (run pinnedLocks (init f₀ progs) sch).ts[i]? = some t →
+    (f₀ : File κ ν) (progs : List (List (Call κ ν))) (hdisj : Disj progs) (sch : List Nat) :
+    (∀ (i : Nat) (t : ATState κ ν), (run pinnedLocks (init f₀ progs) sch).ts[i]? = some t →
       t.todo = [] → ∃ p, progs[i]? = some p ∧ t.outs = serialOuts (lookup f₀) p) ∧
     (AllDone (run pinnedLocks (init f₀ progs) sch) →
       FinalOK f₀ progs (run pinnedLocks (init f₀ progs) sch).file) := by
@@ -208,7 +247,7 @@ theorem serialisable_of_allLocked (h : allLocked = true)
 
 /-- At every moment, under ANY lock discipline: each counter is the number of outcomes of its
 kind reported so far (the bump is atomic with the report). -/
-theorem counters_exact (L : Locks) (f₀ : File) (progs : List (List Call)) (sch : List Nat)
+theorem counters_exact (L : Locks) (f₀ : File κ ν) (progs : List (List (Call κ ν))) (sch : List Nat)
     (o : Outcome) :
     (run L (init f₀ progs) sch).cnt.get o =
       ((run L (init f₀ progs) sch).ts.map (fun t => t.outs.count o)).sum :=
@@ -218,12 +257,12 @@ theorem counters_exact (L : Locks) (f₀ : File) (progs : List (List Call)) (sch
 number of calls with that SERIAL outcome, and the four counters sum to the number of calls. -/
 theorem counters_sum (L : Locks)
     (hL : L.add = true ∧ L.upd = true ∧ L.read = true)
-    (f₀ : File) (progs : List (List Call)) (hdisj : Disj progs) (sch : List Nat)
+    (f₀ : File κ ν) (progs : List (List (Call κ ν))) (hdisj : Disj progs) (sch : List Nat)
     (hdone : AllDone (run L (init f₀ progs) sch)) :
     (∀ o, (run L (init f₀ progs) sch).cnt.get o =
       ((progs.map (serialOuts (lookup f₀))).map (fun l => l.count o)).sum) ∧
     (run L (init f₀ progs) sch).cnt.total = (progs.map List.length).sum :=
-  counters_of_inv (run_inv hL.1 hL.2.1 hdisj _ (init_inv f₀ progs) sch)
+  counters_of_inv (run_inv hL.1 hL.2.1 hL.2.2 hdisj _ (init_inv f₀ progs) sch)
     (run_cnt L _ (init_cnt f₀ progs) sch) (by rw [run_length]; simp [init]) hdone
 
 example : (run allL (init exInit exProgs) exSched).cnt =
